@@ -3,6 +3,7 @@ package props
 import (
 	"bytes"
 	"compress/gzip"
+	"errors"
 	"fmt"
 	"io"
 	"net/http"
@@ -43,6 +44,8 @@ type c03Case struct {
 	Accept   string      `json:"accept,omitempty"`  // Accept header (a reply type other than the body's type)
 	Rot      bool        `json:"x_rot,omitempty"`   // Content-Encoding: x-rot (the custom compressor)
 	Negative bool        `json:"negative,omitempty"`
+	Damage   string      `json:"damage,omitempty"` // "" | cut | flip: the gzip body is cut to DamageAt bytes / has byte DamageAt inverted
+	DamageAt int         `json:"damage_at,omitempty"`
 }
 
 type c03Env struct {
@@ -203,6 +206,14 @@ func (e *c03Env) build(tc *c03Case) (req *http.Request, want protoreflect.Messag
 				zw.Close()
 				body = zb.Bytes()
 				hdr.Set("Content-Encoding", "gzip")
+				switch {
+				case tc.Damage == "cut" && tc.DamageAt < len(body):
+					body = body[:tc.DamageAt]
+				case tc.Damage == "flip" && tc.DamageAt < len(body):
+					body[tc.DamageAt] ^= 0xff
+				case tc.Damage != "":
+					return nil, nil, errBeyondBody
+				}
 			}
 		}
 	}
@@ -224,8 +235,13 @@ func (e *c03Env) build(tc *c03Case) (req *http.Request, want protoreflect.Messag
 	return req, want, nil
 }
 
+var errBeyondBody = errors.New("damage offset beyond the body")
+
 func (e *c03Env) exec(tc *c03Case) (oracle, note string) {
 	req, want, err := e.build(tc)
+	if err == errBeyondBody {
+		return "", "n/a"
+	}
 	if err != nil {
 		return "harness", err.Error()
 	}
@@ -233,6 +249,17 @@ func (e *c03Env) exec(tc *c03Case) (oracle, note string) {
 	res := serveReq(e.mux, req)
 	if res.Panicked {
 		return "panic", res.Panic
+	}
+	if tc.Damage != "" {
+		// a damaged compressed body: refused, or (damage the decompressor does not notice, or only
+		// in the trailer) delivered whole - never a message that was not sent
+		if e.impl.n > 0 && !proto.Equal(want.Interface(), e.impl.req) {
+			return "damaged-body-delivered", fmt.Sprintf("gzip body %s at byte %d: the handler was invoked with {%s}, sent was {%s}", tc.Damage, tc.DamageAt, truncS(fmtMsg(e.impl.req), 300), truncS(fmtMsg(want.Interface()), 300))
+		}
+		if e.impl.n == 0 && res.Code < 400 {
+			return "damaged-body-no-error", fmt.Sprintf("status %d", res.Code)
+		}
+		return "", ""
 	}
 	if tc.Negative {
 		if e.impl.n > 0 {
@@ -475,12 +502,46 @@ func (g *c03Gen) negatives() {
 	}
 }
 
+// damaged: a body of several fields, gzip-compressed, cut at every length and with every single
+// byte inverted, with known and unknown Content-Length.
+func (g *c03Gen) damaged() {
+	var as []c03Assign
+	for _, fp := range []string{"string_value", "uint32_value", "double_value", "sint64_value", "bytes_value", "string_list", "nested.string_value", "nested.int64_value"} {
+		f, ok := g.env.byPath[fp]
+		if !ok {
+			continue
+		}
+		vs := valuesOf(f)
+		v := vs[len(vs)-1]
+		if fp == "string_value" {
+			v = vs[0] // the 300-byte one
+		}
+		as = append(as, c03Assign{Field: fp, Text: v.texts[0], Value: v.name, Channel: "body"})
+	}
+	for _, cd := range []string{"json", "protobuf"} {
+		for _, kind := range []string{"cut", "flip"} {
+			for at := 0; at < 400; at++ {
+				for _, ch := range []bool{false, true} {
+					if kind == "cut" && at == 0 {
+						continue // an empty body is not a damaged one
+					}
+					g.cases = append(g.cases, c03Case{Assigns: as, Rule: "b", Codec: cd, Gzip: true, Chunked: ch, Damage: kind, DamageAt: at})
+				}
+			}
+		}
+	}
+}
+
 func c03Key(tc *c03Case) string {
 	var as []string
 	for _, a := range tc.Assigns {
 		as = append(as, fmt.Sprintf("%s=%q@%s", a.Field, a.Text, a.Channel))
 	}
-	return fmt.Sprintf("rule=%s codec=%s gzip=%v x-rot=%v chunked=%v accept=%q neg=%v %s", tc.Rule, tc.Codec, tc.Gzip, tc.Rot, tc.Chunked, tc.Accept, tc.Negative, strings.Join(as, " & "))
+	dmg := ""
+	if tc.Damage != "" {
+		dmg = fmt.Sprintf(" damage=%s@%d", tc.Damage, tc.DamageAt)
+	}
+	return fmt.Sprintf("rule=%s codec=%s gzip=%v x-rot=%v chunked=%v accept=%q neg=%v%s %s", tc.Rule, tc.Codec, tc.Gzip, tc.Rot, tc.Chunked, tc.Accept, tc.Negative, dmg, truncS(strings.Join(as, " & "), 300))
 }
 
 // c03Class groups cases for reporting (one replay per class and oracle).
@@ -493,12 +554,12 @@ func c03Class(tc *c03Case) string {
 		}
 		as = append(as, fmt.Sprintf("%s@%s", f, a.Channel))
 	}
-	return fmt.Sprintf("%s|%s|%v|%v|%v|%s|%s", tc.Rule, tc.Codec, tc.Gzip, tc.Rot, tc.Chunked, tc.Accept, strings.Join(as, "&"))
+	return fmt.Sprintf("%s|%s|%v|%v|%v|%s|%s|%s", tc.Rule, tc.Codec, tc.Gzip, tc.Rot, tc.Chunked, tc.Accept, tc.Damage, strings.Join(as, "&"))
 }
 
 func runC03(c *Ctx) {
 	r := c.Run
-	r.Rule("ComplexRequest (15 scalar kinds, enum, bytes, repeated scalars (1-3 and 40 elements), strings of 300 / 5600 / 6000 bytes, nested message, oneof members, wrappers, Timestamp/Duration/FieldMask) × rules {no body, body '*', body 'nested', path variable on every bindable field ± body} × every field × every boundary value × every spelling × every channel (path, query by proto name, query by JSON name, body JSON/protobuf/octet-stream/a custom codec registered with CodecOption ± gzip or a custom compressor registered with CompressorOption, with known and with unknown Content-Length, without and with an Accept header naming another codec); pairs of fields in different channels (quick: all ordered pairs, 2 × 1 values; thorough: all ordered pairs × every value of both fields, plus every ordered triple path+query+nested-body); negative: texts invalid under every reading, in query and path; distinct = (rule, codec, channels, field) classes")
+	r.Rule("ComplexRequest (15 scalar kinds, enum, bytes, repeated scalars (1-3 and 40 elements), strings of 300 / 5600 / 6000 bytes, nested message, oneof members, wrappers, Timestamp/Duration/FieldMask) × rules {no body, body '*', body 'nested', path variable on every bindable field ± body} × every field × every boundary value × every spelling × every channel (path, query by proto name, query by JSON name, body JSON/protobuf/octet-stream/a custom codec registered with CodecOption ± gzip or a custom compressor registered with CompressorOption, with known and with unknown Content-Length, without and with an Accept header naming another codec); pairs of fields in different channels (quick: all ordered pairs, 2 × 1 values; thorough: all ordered pairs × every value of both fields, plus every ordered triple path+query+nested-body); negative: texts invalid under every reading, in query and path; a gzip body of eight fields cut at every length and with every single byte inverted (refused or delivered whole, never a message that was not sent); distinct = (rule, codec, channels, field) classes")
 	r.Assume("not demanded: NaN/Infinity, 'True'/'1' for bool, leading '+'/zeros, exponent or '.0' forms for integers, mixed base64 alphabets, empty or quoted wrapper text, Content-Type with parameters, JSON null, empty sub-message as protobuf body")
 	env0, err := newC03Env()
 	if err != nil {
@@ -547,6 +608,7 @@ func runC03(c *Ctx) {
 	}
 	nChunked := len(g.cases) - nBefore
 	g.negatives()
+	g.damaged()
 	r.Set("chunked_and_accept_variants", nChunked)
 	r.Set("cases", map[string]int{"singles": nSingles, "pairs": nPairs, "triples": nTriples, "negatives": len(g.cases) - nSingles - nPairs - nTriples - nChunked})
 
@@ -561,10 +623,15 @@ func runC03(c *Ctx) {
 		}
 		tc := &g.cases[i]
 		oracle, note := envs[w].exec(tc)
+		if note == "n/a" {
+			return
+		}
 		r.Eval(1)
 		if oracle == "" {
 			if tc.Negative {
 				r.Outcome("rejected-invalid")
+			} else if tc.Damage != "" {
+				r.Outcome("damaged-body-refused-or-whole")
 			} else {
 				r.Outcome("delivered-equal")
 			}
